@@ -1096,6 +1096,29 @@ func freshRooted(v ssa.Value, promoted map[*ssa.Alloc]bool, depth int) bool {
 	return false
 }
 
+// freshRootInstr returns the allocation instruction an address is derived from by field /
+// index selection, or nil if there is no single such instruction.
+func freshRootInstr(v ssa.Value, depth int) ssa.Instruction {
+	if depth > 12 {
+		return nil
+	}
+	switch x := v.(type) {
+	case *ssa.Alloc:
+		return x
+	case *ssa.MakeSlice:
+		return x
+	case *ssa.FieldAddr:
+		return freshRootInstr(x.X, depth+1)
+	case *ssa.IndexAddr:
+		return freshRootInstr(x.X, depth+1)
+	case *ssa.Slice:
+		return freshRootInstr(x.X, depth+1)
+	case *ssa.ChangeType:
+		return freshRootInstr(x.X, depth+1)
+	}
+	return nil
+}
+
 type modResult struct {
 	comps []string
 	all   bool
@@ -1145,6 +1168,16 @@ func (fr *Frame) loopWrites(li *loopInfo) (locals []*ssa.Alloc, comps []string, 
 					locals = append(locals, a)
 				}
 				continue
+			}
+			if s, ok := in.(*ssa.Store); ok && freshRooted(s.Addr, fr.promoted, 0) {
+				// memory allocated by this activation is "fresh" for callers, but for the loop
+				// only what the loop body itself allocates is: a store into an object (e.g. the
+				// box of a captured variable) allocated BEFORE the loop changes a location that
+				// exists at the loop head
+				if root := freshRootInstr(s.Addr, 0); root == nil || root.Block() == nil || !li.blocks[root.Block()] {
+					fc.storeTargets(s.Addr, fr.promoted, out)
+					continue
+				}
 			}
 			if fc.instrWrites(in, fr.promoted, out, map[*ssa.Function]bool{}) {
 				all = true
